@@ -1525,7 +1525,17 @@ void restore_object_from_buff (object_t * ob, char *theBuff, int noclear) {
       if (noclear)
         rc = safe_restore_svalue (space + 1, v);
       else
-        rc = restore_svalue (space + 1, v);
+        {
+          /* The variables were cleared before the file is read, so restore_svalue() just
+           * overwrites.  A file that names a variable twice (edited by hand, or two saves
+           * glued together) must not lose the value of the first line that way. */
+          if (v->type != T_NUMBER)
+            {
+              free_svalue (v, "restore_object_from_buff");
+              *v = const0;
+            }
+          rc = restore_svalue (space + 1, v);
+        }
       if (rc & ROB_ERROR)
         {
           FREE (theBuff);
